@@ -626,13 +626,14 @@ Section GridSpec.
   Qed.
 End GridSpec.
 
-(* the as-written loop returns junk on an empty non-last axis: the witness of the finding *)
-Lemma gridpts_impl_refuted :
-  exists q : list (list nat), In [] q /\ gridpts_impl q <> Some (gridpts q).
-Proof. exists [[]; [1; 2]]. split; [now left|]. vm_compute. discriminate. Qed.
+Lemma gridpts_empty_axis : forall {A} (q : list (list A)), In [] q -> gridpts q = [].
+Proof.
+  intros A q; induction q as [|ax q IH]; intros H; [contradiction|]. cbn [gridpts].
+  destruct H as [->|H]; [reflexivity|]. rewrite (IH H). induction ax; cbn; auto.
+Qed.
 
 (* ------------------------------------------------------------------------------------------------ *)
-(** * E'. The loop as written in grid.py computes that product whenever no axis is empty *)
+(** * E'. The loop as written in grid.py (with its empty-axis guard) computes that product *)
 
 Section GridImpl.
   Variable A : Type.
@@ -731,12 +732,32 @@ Section GridImpl.
       cbn [rev]. now rewrite <- !app_assoc.
   Qed.
 
-  Theorem gridpts_impl_correct : forall q : list (list A),
-    q <> [] -> Forall (fun ax => ax <> []) q -> gridpts_impl q = Some (gridpts q).
+  Lemma guard_true : forall q : list (list A),
+    forallb (fun ax => negb (Nat.eqb (length ax) 0)) q = true -> Forall (fun ax => ax <> []) q.
   Proof.
-    intros q Hne Hall. unfold gridpts_impl.
+    intros q H. apply Forall_forall. intros ax Hin Heq. rewrite forallb_forall in H. specialize (H ax Hin).
+    subst ax. discriminate.
+  Qed.
+
+  Lemma guard_false : forall q : list (list A),
+    forallb (fun ax => negb (Nat.eqb (length ax) 0)) q = false -> In [] q.
+  Proof.
+    induction q as [|ax q IH]; cbn; [discriminate|]. intros H. apply andb_false_iff in H. destruct H as [H|H].
+    - left. destruct ax; [reflexivity | discriminate].
+    - right. auto.
+  Qed.
+
+  (* the loop as written (with its empty-axis guard) computes the product for EVERY list of axes; the only rejected
+     input is the one without any axis (IndexError) *)
+  Theorem gridpts_impl_correct : forall q : list (list A),
+    q <> [] -> gridpts_impl q = Some (gridpts q).
+  Proof.
+    intros q Hne. unfold gridpts_impl.
     destruct (rev q) as [|last rq'] eqn:Hr.
     { exfalso. apply Hne. rewrite <- (rev_involutive q), Hr. reflexivity. }
+    destruct (forallb (fun ax => negb (Nat.eqb (length ax) 0)) q) eqn:Hg.
+    2:{ apply guard_false in Hg. now rewrite (gridpts_empty_axis q Hg). }
+    apply guard_true in Hg. rename Hg into Hall.
     assert (Hinit : repeat (@nil A) (length last) = concat (repeat (G []) (length (hd [] (last :: rq'))))).
     { cbn [hd]. unfold G. cbn [gridpts map rev]. induction (length last); cbn; [reflexivity|]. now f_equal. }
     rewrite Hinit, <- Hr.
@@ -818,7 +839,7 @@ Theorem gridpts_is_product : forall (A : Type) (q : list (list A)),
   (forall js d, Forall2 (fun j ax => j < length ax) js q ->
        nth (grid_rank js (map (@length A) q)) (gridpts q) [] = grid_point d js q) /\
   (Forall (@NoDup A) q -> NoDup (gridpts q)) /\
-  (q <> [] -> Forall (fun ax => ax <> []) q -> gridpts_impl q = Some (gridpts q)).
+  (q <> [] -> gridpts_impl q = Some (gridpts q)).
 Proof.
   intros A q. split; [apply gridpts_length|]. split; [apply gridpts_In|]. split; [apply gridpts_nth|].
   split; [apply gridpts_NoDup | apply gridpts_impl_correct].
